@@ -62,6 +62,13 @@ func (e *Engine) verifyFunc(fi *FuncInfo) (rep *FuncReport) {
 	st := newState()
 	info := fi.Pkg.TypesInfo
 	sig := fi.Obj.Type().(*types.Signature)
+	e.arrayMode = c.Attrs["streams"] == "arrays"
+	if e.arrayMode {
+		e.notes["array mode: stream cursors kept in arrays indexed by stream id (symbolic number of channels)"] = true
+		for _, k := range []string{"@consumed", "@sent", "@closed", "@nextid"} {
+			e.freshCursorArray(st, k)
+		}
+	}
 	// receiver
 	if fi.Decl.Recv != nil && len(fi.Decl.Recv.List) > 0 && len(fi.Decl.Recv.List[0].Names) > 0 {
 		n := fi.Decl.Recv.List[0].Names[0]
@@ -151,24 +158,36 @@ func (e *Engine) paramValue(name string, t types.Type, st *State) Value {
 		st.assume(mkCmp(">=", e.slen(id), mkInt(0)))
 		if u.Dir() != types.SendOnly {
 			c0 := mkConst(name+".consumed0", SInt)
-			st.mem["consumed:"+id.String()] = c0
-			st.assume(mkAnd(mkCmp("<=", mkInt(0), c0), mkCmp("<=", c0, e.slen(id))))
-			if u.Dir() == types.RecvOnly {
-				st.mem["closed:"+id.String()] = tTrue // input histories are finite: the producer closes eventually
+			if !e.arrayMode {
+				st.mem["consumed:"+id.String()] = c0
+				st.assume(mkAnd(mkCmp("<=", mkInt(0), c0), mkCmp("<=", c0, e.slen(id))))
+				if u.Dir() == types.RecvOnly {
+					st.mem["closed:"+id.String()] = tTrue // input histories are finite: the producer closes eventually
+				}
+			} else {
+				st.assume(mkCmp("<", id, st.mem["@nextid"]))
 			}
 		}
 		if u.Dir() != types.RecvOnly {
 			s0 := mkConst(name+".sent0", SInt)
-			st.mem["sent:"+id.String()] = s0
-			st.assume(mkCmp("<=", mkInt(0), s0))
-			st.mem["closed:"+id.String()] = mkConst(name+".closed0", SBool)
+			if !e.arrayMode {
+				st.mem["sent:"+id.String()] = s0
+				st.assume(mkCmp("<=", mkInt(0), s0))
+				st.mem["closed:"+id.String()] = mkConst(name+".closed0", SBool)
+			}
 		}
 		return VStream{ID: id, Elem: u.Elem()}
 	case *types.Slice:
 		es := e.elemSort(u.Elem())
 		ln := mkConst(name+".len", SInt)
 		st.assume(mkCmp(">=", ln, mkInt(0)))
-		return VSlice{Arr: mkConst(name+".arr", arraySort(SInt, es)), Len: ln, Elem: u.Elem()}
+		arr := mkConst(name+".arr", arraySort(SInt, es))
+		if e.arrayMode && isChan(u.Elem()) {
+			e.nfresh++
+			b := mkVar(fmt.Sprintf("j$%d", e.nfresh), SInt)
+			st.assume(mkForall([]*Term{b}, mkImplies(mkAnd(mkCmp("<=", mkInt(0), b), mkCmp("<", b, ln)), mkAnd(mkCmp("<", mkSelect(arr, b), st.mem["@nextid"]), mkCmp(">=", mkApp("slen", SInt, mkSelect(arr, b)), mkInt(0)))), [][]*Term{{mkSelect(arr, b)}}))
+		}
+		return VSlice{Arr: arr, Len: ln, Elem: u.Elem()}
 	case *types.Signature:
 		return VFunc{ID: mkConst(name, SInt), Sig: u}
 	}
@@ -328,6 +347,18 @@ func (e *Engine) onSend(st *State, ch VStream, n *Term, where string) {
 			continue
 		}
 		bound = mkMax(bound, mkApp("hor", SInt, id, mkArith("-", e.consumed(st, id), mkInt(1))))
+	}
+	for _, f := range st.readFam {
+		// the element whose last value read has the largest horizon (exists for a non-empty family)
+		jw := e.fresh("jmax", SInt)
+		el := mkSelect(f.arr, jw)
+		top := mkApp("hor", SInt, el, mkArith("-", e.consumed(st, el), mkInt(1)))
+		e.nfresh++
+		j := mkVar(fmt.Sprintf("j$%d", e.nfresh), SInt)
+		ej := mkSelect(f.arr, j)
+		st.assume(mkImplies(mkCmp(">=", f.ln, mkInt(1)), mkAnd(mkCmp("<=", mkInt(0), jw), mkCmp("<", jw, f.ln),
+			mkForall([]*Term{j}, mkImplies(mkAnd(mkCmp("<=", mkInt(0), j), mkCmp("<", j, f.ln)), mkCmp("<=", mkApp("hor", SInt, ej, mkArith("-", e.consumed(st, ej), mkInt(1))), top)), [][]*Term{{mkSelect(f.arr, j)}}))))
+		bound = mkMax(bound, mkIte(mkCmp(">=", f.ln, mkInt(1)), top, mkInt(-1)))
 	}
 	st.assume(mkCmp("<=", mkApp("hor", SInt, ch.ID, n), bound))
 }
